@@ -343,6 +343,6 @@ Theorem pipeline_refines d root o k pps :
   packet_generator d root o k (encode pps)
   = Some (flat_map (fun r => items_of (parse_one d root o r)) (to_parse o (map snd pps)), None).
 Proof.
-  intros Hs Hh Hn. unfold packet_generator. rewrite (frame_bytes_exact k pps Hs). unfold generator. rewrite Hh.
+  intros Hs Hh Hn. unfold packet_generator. unfold frame. rewrite (frame_bytes_exact TRIM k pps Hs). unfold generator. rewrite Hh.
   now rewrite gen_flat_map.
 Qed.
